@@ -155,12 +155,12 @@ def c15_scenarios(tier, seed):
         hc = (i % 2 == 0)
         out.append(scen(i + 1, num_workers=w, health_check=hc, hc_conns=(rnd.choice([1, 3, 8, 20]) if hc else None), batch_size=batches[(i // 2) % 4],
                         fault_percentage=faults[i % 3], status_interval=intervals[(i // 3) % 3], client_stats=(i % 4 in (1, 2)),
-                        source=("env" if i % 3 == 1 else "file"), probe_socks=32, probe_rounds=2, observe_ms=100))
+                        source=("env" if i % 3 == 1 else "file"), probe_socks=32, probe_rounds=2, observe_ms=100, spread_probe=True))
     # many simultaneous health-check connections on few listeners (more than one wake-up's worth per worker)
     out.append(scen(800, num_workers=1, health_check=True, hc_conns=48, probe_socks=8, probe_rounds=1))
     out.append(scen(801, num_workers=2, health_check=True, hc_conns=90, probe_socks=8, probe_rounds=1))
     # default number of workers (one per CPU) with a health check, from the environment
-    out.append(scen(900, health_check=True, hc_conns=4, source="env", probe_socks=32, probe_rounds=2))
+    out.append(scen(900, health_check=True, hc_conns=4, source="env", probe_socks=32, probe_rounds=2, spread_probe=True))
     return [{k: v for k, v in s.items() if v is not None} for s in out]
 
 
@@ -216,7 +216,7 @@ def c18_scenarios(tier, seed):
     for w in ws:
         for cnum in cl:
             # consecutive bursts large enough that every worker signs several multi-request batches one after another
-            out.append(scen(i, num_workers=w, probe_socks=max(24, 8 * w), probe_rounds=3, load={"clients": cnum, "requests": 25 if tier == "quick" else 60},
+            out.append(scen(i, num_workers=w, probe_socks=max(24, 8 * w), probe_rounds=3, spread_probe=True, load={"clients": cnum, "requests": 25 if tier == "quick" else 60},
                             batch_size=[64, 4, 1][i % 3], client_stats=(i % 4 == 3)))
             i += 1
     # stalled bursts: full batches wait for the workers (all of one protocol, and mixed), several in a row
